@@ -455,6 +455,9 @@ fn h2f_long_any<F: Field>(n: usize, dst: &[u8], msg: &[u8]) -> Vec<F> {
         64 => h2f_n::<F, Sha256, 64>(dst, msg),
         100 => h2f_n::<F, Sha256, 100>(dst, msg),
         127 => h2f_n::<F, Sha256, 127>(dst, msg),
+        128 => h2f_n::<F, Sha256, 128>(dst, msg),
+        129 => h2f_n::<F, Sha256, 129>(dst, msg),
+        200 => h2f_n::<F, Sha256, 200>(dst, msg),
         _ => unreachable!("count not instantiated"),
     }
 }
@@ -489,6 +492,29 @@ fn h2f_long_rel<F: OracleRepr>(f: &Fa, name: &str, t: &mut Tape<'_>, o: &mut Obs
         );
     }
     Ok(())
+}
+
+/// Requests beyond the limit of expand_message_xmd (ell = ceil(len_in_bytes / 32) > 255): RFC 9380 section 5.3.1 says
+/// ABORT; the library aborts by panicking. Returning field elements for such a request is an output the reference does
+/// not have.
+fn h2f_too_long_rel<F: OracleRepr>(f: &Fa, name: &str, t: &mut Tape<'_>, o: &mut Obs) -> R {
+    let m = f.tw.degree();
+    let l = rfc::len_per_elem(&f.prime.p, 128);
+    let all = [64usize, 100, 127, 128, 129, 200];
+    let over: Vec<usize> = all.iter().copied().filter(|n| (n * m * l + 31) / 32 > 255).collect();
+    let n = over[t.idx(over.len())];
+    let dst = gen_dst(t, o);
+    let msg = gen_msg(t);
+    let blocks = (n * m * l + 31) / 32;
+    o.show(|| format!("{}: hash_to_field::<{}> msg={} dst={} ({} blocks: beyond the limit of 255)", name, n, hexb(&msg), hexb(&dst), blocks));
+    o.nt(true);
+    o.class_if(blocks == 256, "blocks=256");
+    // the engine's panic hook is quiet and records the message per thread; an expected abort is simply caught here
+    let r = std::panic::catch_unwind(std::panic::AssertUnwindSafe(|| h2f_long_any::<F>(n, &dst, &msg)));
+    match r {
+        Err(_) => Ok(()),
+        Ok(v) => vh_core::fail("hash_to_field.too-long.accepted", format!("a request for {} elements ({} blocks > 255) returned {} field elements instead of aborting", n, blocks, v.len())),
+    }
 }
 
 /// `curve_maps::parity` (documented as sgn0 of RFC 9380 section 4.1) called directly: parity of the first non-zero
@@ -1105,6 +1131,23 @@ fn relations(tier: Tier) -> Vec<Rel> {
         h2f_det_rel::<ark_ed_on_bls12_381_bandersnatch::Fq, Sha512>("bandersnatch.Fq/SHA-512", t, o)
     }));
     out.push(Rel::new("hash_to_field.det/toy.F101.sha256", q(400), TAPE_MSG, |t, o| h2f_det_rel::<vh_core::toy::Tf101, Sha256>("toy.F101/SHA-256", t, o)));
+    {
+        let fa = Arc::new(Fa::new(<ark_bls12_381::Fq as OracleRepr>::tower()));
+        out.push(Rel::new("hash_to_field.too-long/bls12_381.Fq", q(60), TAPE_MSG, move |t, o| h2f_too_long_rel::<ark_bls12_381::Fq>(&fa, "bls12_381.Fq", t, o)).shrink_iters(20));
+        let fa = Arc::new(Fa::new(<ark_bls12_381::Fq2 as OracleRepr>::tower()));
+        out.push(Rel::new("hash_to_field.too-long/bls12_381.Fq2", q(60), TAPE_MSG, move |t, o| h2f_too_long_rel::<ark_bls12_381::Fq2>(&fa, "bls12_381.Fq2", t, o)).shrink_iters(20));
+    }
+    // moduli whose bit length is a multiple of 8 (the byte-wise reduction of the expanded bytes then converts a
+    // full-width leading chunk) and that are not close to 2^bits, so that many chunks are >= p: no panic, canonical,
+    // deterministic (RFC equality is not claimed for L != 64, observation O2)
+    macro_rules! h2f_det_zoo {
+        ($($f:ident),*) => {$(
+            out.push(Rel::new(concat!("hash_to_field.det/zoo.", stringify!($f), ".sha256"), q(300), TAPE_MSG, |t, o| {
+                h2f_det_rel::<vh_core::zoo::$f, Sha256>(concat!("zoo.", stringify!($f), "/SHA-256"), t, o)
+            }));
+        )*};
+    }
+    h2f_det_zoo!(W1, W2, W3, W4, Secp256k1, NistP256, C448, N6, T251);
     // long outputs (33..=254 SHA-256 blocks) for the fields with L = 64
     macro_rules! h2f_long {
         ($f:ty, $name:expr, $cases:expr) => {{
